@@ -4,7 +4,7 @@ import Skc.Model.RankInv
 
 * `{"op":"rrt1","dm":{"alts","crits","objs","wts","cells"},"order":[…non-best alternatives in the
   order they are mutated…],"draws":[…u ∈ [0,1), one per criterion per round…],"repeat":n,
-  "strategy":"median"|"mean"|"max"|"min"|"halfmean","fuel":n?,"version":"fixed"|"v0"?,
+  "strategy":"median"|"mean"|"max"|"min"|"halfmean"|"meanminus1"|"negmean","fuel":n?,"version":"fixed"|"v0"?,
   "results":[{"method","alts","values"},…]?,"allow":bool?}`
   → `{"experiments":[{"mutated","iteration","noise","row"}],"consumed":n}` or `{"err":"ValueError"|"OutOfFuel"|"OutOfDraws"}`.
   With `results` (what the decision maker answered, call by call, the original first) the reply also
@@ -45,6 +45,8 @@ def stratOf (j : Json) : Except String (List Rat → Rat) := do
   | "max" => pure maxL
   | "min" => pure minL
   | "halfmean" => pure halfMean
+  | "meanminus1" => pure fun l => mean l - 1
+  | "negmean" => pure fun l => - mean l
   | s => throw s!"bad strategy {s}"
 
 def resultOf (j : Json) : Except String RankRes := do
